@@ -142,7 +142,16 @@ def run_cfg(st, cfg, max_steps=10000, stop_at_exit=True, phi=False):
         for ins in blk["instructions"]:
             steps += 1
             st.trace.append(("ins", b, ins["index"]))
-            kind, info = exec_op(st, ins["op"])
+            hv = getattr(st, "havoc", None)
+            if hv is not None and ins["op"][0] == "intrinsic" and ins["op"][1].get("written") is not None:
+                # declared intrinsic under the analysis-level meaning: writes the values the solver chose
+                bstep = sum(1 for t_ in st.trace if t_[0] == "block") - 1
+                for w_ in ins["op"][1]["written"]:
+                    if w_[0] == "scalar":
+                        st.sc[st.key(w_)] = (hv.get(f"havoc!{bstep}!{b}!{ins['index']}!{w_[1]}", 0) & ((1 << w_[2]) - 1), w_[2])
+                kind, info = "fall", None
+            else:
+                kind, info = exec_op(st, ins["op"])
             if kind != "fall":
                 return kind, info
             if steps > max_steps:
